@@ -19,15 +19,18 @@ func (d Duration) MarshalText() ([]byte, error) {
 	}
 
 	out := "PT"
+	// Work on the magnitude as an unsigned value so that the most negative
+	// duration (whose negation overflows int64) is handled too.
+	u := uint64(d)
 	if d < 0 {
-		d *= -1
+		u = -u
 		out = "-" + out
 	}
 
-	h := time.Duration(d) / time.Hour
-	m := time.Duration(d) % time.Hour / time.Minute
-	s := time.Duration(d) % time.Minute / time.Second
-	ns := time.Duration(d) % time.Second
+	h := u / uint64(time.Hour)
+	m := u % uint64(time.Hour) / uint64(time.Minute)
+	s := u % uint64(time.Minute) / uint64(time.Second)
+	ns := u % uint64(time.Second)
 	if h > 0 {
 		out += fmt.Sprintf("%dH", h)
 	}
